@@ -2,6 +2,9 @@
 # selftest/run_refactors.sh <dir>...: each <dir> holds a behaviour-preserving patch.diff. Applies it to /repo, runs
 # every quick check, reverts; prints one line per (refactor, check) that did not exit 0, and a summary line.
 cd /verif
+# evidence files are rewritten by every run: keep the ones from the unchanged tree
+EVBAK=$(mktemp -d); cp -a evidence/. $EVBAK/ 2>/dev/null
+trap 'cp -a $EVBAK/. /verif/evidence/ 2>/dev/null; rm -rf $EVBAK' EXIT
 for d in "$@"; do
   git -C /repo checkout -q -- .
   if ! git -C /repo apply "$d/patch.diff" 2>/dev/null; then echo "$d APPLY-FAIL"; continue; fi
